@@ -17,7 +17,7 @@ TOL = 1e-9
 
 META = {
     "rule": "graph-shape family F(n,m) (families.py): n in {2,3} vertices of every type multiset, every multiset of 1..m candidate edges (type-correct odometry/landmark "
-    "edges on every ordered pair, unary prior, ternary custom edges; duplicates = parallel edges). Sub-products: L = larger graphs (SLAM families with 4..33 (thorough 64) poses, a 9-landmark star, two components with their own anchors, a degree-5 hub, 33-vertex R^n chains) x 3 vertex list orders x fix_first_pose; A = x every fixed subset x fix_first_pose x every vertex "
+    "edges on every ordered pair, unary prior, ternary custom edges; duplicates = parallel edges). Sub-products: L = larger graphs (SLAM families with 4..33 (thorough 64) poses, a 9-landmark star, two components with their own anchors, a degree-5 hub, 33-vertex R^n chains) x 3 vertex list orders x fix_first_pose, and for graphs up to 17 poses ONE optimize(tol=0, max_iter=k) call, k in {2,3,5,8}, against k reference steps; A = x every fixed subset x fix_first_pose x every vertex "
     "list permutation; B = x every edge-list permutation; C = x id maps (negative, sparse, huge, id 0 on a non-first vertex) x fix_first_pose, and information scaled by 1e-9 x every fixed subset; P = all vertices initialised from ONE shared pose object x every non-empty fixed subset; H = histories: one iteration under fixed set S1, flags changed to S2 (every ordered pair of non-empty subsets), the next iteration is judged. Ill-posed configurations (a component without fixed vertex, or reduced "
     "Hessian cond > 1e6, by the reference) are counted and skipped. Oracle: poses after optimize(max_iter=1) = pose [+] dx_ref (dense reduced normal equations assembled by "
     "vertex identity). non-trivial = at least one free vertex moves by more than 1e-6",
@@ -25,7 +25,7 @@ META = {
         "e, J, Omega are taken from the edges themselves (C01/C02 own them); numpy dense solve/cond trusted",
         "tolerance 1e-9 x (1 + |dx| + translation scale) x max(1, cond/1e3)",
     ],
-    "required_classes": ["large_graph", "far_apart", "shared_pose_object", "weak_information", "history", "parallel_edges", "edge_high_index_first", "mixed_dimensions", "two_or_more_fixed", "custom_unary", "custom_ternary", "ffp_true", "ffp_false", "ids_special", "edge_order_permuted", "isolated_fixed_vertex"],
+    "required_classes": ["iterations_inside_one_call", "large_graph", "far_apart", "shared_pose_object", "weak_information", "history", "parallel_edges", "edge_high_index_first", "mixed_dimensions", "two_or_more_fixed", "custom_unary", "custom_ternary", "ffp_true", "ffp_false", "ids_special", "edge_order_permuted", "isolated_fixed_vertex"],
     "bounds": {"quick": "n=2: m<=3; n=3: m<=2, vertex orders {identity, reversed, rotated}", "thorough": "n=2: m<=4; n=3: m<=3, all 6 vertex orders"},
 }
 
@@ -107,6 +107,10 @@ def run_chunk(chunk, tier, seed):
         for vo in ("as_listed", "reversed", "interleaved"):
             for ffp in (False, True):
                 _do(acc, {"large": name, "tier": tier, "seed": seed, "vorder": vo, "ffp": ffp, "types": None, "edges": None, "fixed": None, "eorder": None, "ids": None})
+        # EACH iteration of one optimize(tol=0, max_iter=k) call is the exact step (also the late ones, close to convergence)
+        if nv <= 17:
+            for k in (2, 3, 5, 8):
+                _do(acc, {"large": name, "tier": tier, "seed": seed, "vorder": "as_listed", "ffp": False, "types": None, "edges": None, "fixed": None, "eorder": None, "ids": None, "iters": k})
         return acc
     types = F.type_multisets(n)[ti]
     cands = F.candidate_edges(types, seed)
@@ -264,6 +268,42 @@ def _eval(case):
         return ["raised %s: %s | %s" % (type(ex).__name__, ex, traceback.format_exc()[-500:])], {"ratio": float("inf"), "classes": []}
 
 
+def _eval_iters(case, spec, g, verts, edges, fixed_eff):
+    """k iterations inside ONE call vs the reference step iterated k times on a twin graph (updates through the library's boxplus)."""
+    k = case["iters"]
+    g2, verts2, edges2 = GB.build(spec)
+    cond = 1.0
+    dxn = 0.0
+    for it in range(k):
+        ref = gn.step(verts2, edges2, fixed_eff)
+        if not ref["wellposed"]:
+            return [], {"excluded": "reduced Hessian cond > 1e6 along the trajectory"}
+        cond = max(cond, ref["cond"])
+        for i, v in enumerate(verts2):
+            if not fixed_eff[i]:
+                dxn = max(dxn, float(np.max(np.abs(ref["dx"][i]))))
+                v.pose = v.pose + ref["dx"][i]
+    before = GB.snapshot(verts)
+    GB.optimize(g, tol=0.0, max_iter=k, fix_first_pose=case["ffp"])
+    after = GB.snapshot(verts)
+    exp = GB.snapshot(verts2)
+    msgs = []
+    tsc = 1.0 + max(max(abs(x) for x in b[2][: G.DIM[b[1]]]) for b in before)
+    tol = 1e-8 * (tsc + dxn) * max(1.0, cond / 1e3)
+    ratio = 0.0
+    for i in range(len(verts)):
+        kind = before[i][1]
+        if not all(np.isfinite(after[i][2])):
+            msgs.append("vertex id %r not finite after optimize(tol=0, max_iter=%d)" % (before[i][0], k))
+            ratio = float("inf")
+            continue
+        d = G.phys_diff(kind, after[i][2], exp[i][2])
+        ratio = max(ratio, d / tol)
+        if d > tol:
+            msgs.append("vertex id %r (%s): after ONE optimize(tol=0, max_iter=%d) %r, but %d exact Gauss-Newton steps give %r (|diff| %.3g > %.3g)" % (before[i][0], kind, k, after[i][2], k, exp[i][2], d, tol))
+    return msgs, {"ratio": ratio, "classes": classes_of(case, spec, fixed_eff) + ["iterations_inside_one_call"], "moved": dxn > 1e-6}
+
+
 def _eval_inner(case):
     spec = spec_of(case)
     if case.get("shared_pose_object"):
@@ -299,6 +339,8 @@ def _eval_inner(case):
         return [], {"excluded": "component without a fixed vertex"}
     if not ref["wellposed"]:
         return [], {"excluded": "reduced Hessian cond > 1e6"}
+    if case.get("iters"):
+        return _eval_iters(case, spec, g, verts, edges, fixed_eff)
     before = GB.snapshot(verts)
     exp = []
     dxn = 0.0
